@@ -36,6 +36,8 @@ const preludeSorts = `(set-logic ALL)
 (declare-fun s_cat (Str Str) Str)
 (declare-fun s_sub (Str (_ BitVec 64) (_ BitVec 64)) Str)
 (declare-fun s_lt (Str Str) Bool)
+(declare-fun s_nrunes (Str) (_ BitVec 64))
+(declare-fun s_runeat (Str (_ BitVec 64)) (_ BitVec 32))
 (declare-const s_empty Str)
 (assert (= (s_len s_empty) #x0000000000000000))
 (define-fun nilslice () Slice (mkslice LNil #x0000000000000000 #x0000000000000000 #x0000000000000000))
